@@ -1059,6 +1059,7 @@ fn once_case(cx: &mut Ctx, cell: &'static str, key: &'static str, cj: Value, sta
     let states = vec![state.clone()];
     let marks = vec![tr.len()];
     if key == "dict" { protocol_case(cx, &tr, fname, "SuffixArrayDictionary::save_to_file"); }
+    if key == "zipoffset" { protocol_case(cx, &tr, fname, "ZipOffsetBlobStore::save_to_file"); }
     judge_trace(cx, cell, key, class_of, &cj, &json!({}), fname, false, &tr, &marks, &states, Some(&state), bm, &mut r, exhaustive, img_state);
     let _ = std::fs::remove_dir_all(&dir);
     let _ = key;
@@ -1081,10 +1082,9 @@ fn zipoffset_case(cx: &mut Ctx, recs: &[String], checksum: u8, exhaustive: bool)
         Err(p) => { cx.sum.eval(cell, &cj.to_string(), true); cx.sum.fail(cell, None, cj, &format!("builder panicked: {}", p)); return; }
     };
     if held != recs {
-        // the builder's finish() is a placeholder that drops every record (recorded finding, belongs to C03 as well)
-        let class = if held.is_empty() && !recs.is_empty() { Some("zip_offset_store_is_stub") } else { None };
-        cx.sum.fail(cell, class, cj.clone(), &format!("the finished store holds {} records, {} were added", held.len(), recs.len()));
-        if class.is_none() { return; }
+        // (the former finding class zip_offset_store_is_stub - finish() dropped every record - was repaired by 3312856/5e0cc1c)
+        cx.sum.fail(cell, None, cj.clone(), &format!("the finished store holds {} records, {} were added", held.len(), recs.len()));
+        return;
     }
     let state = json!({"records": held});
     let none = |_: &Value, _: &str, _: &str| -> Option<&'static str> { None };
